@@ -21,6 +21,7 @@ def run_shard(d, name, inputs, dialects, timeout=600):
     events = []
     rest = inputs
     rnd = 0
+    deaths = {}
     while rest:
         ip = os.path.join(d, f"{name}-{rnd}.in.ndjson"); op = os.path.join(d, f"{name}-{rnd}.out.ndjson")
         write_ndjson(ip, rest)
@@ -40,6 +41,14 @@ def run_shard(d, name, inputs, dialects, timeout=600):
         idx = next((i for i, x in enumerate(rest) if x["id"] == cur), len(rest) - 1)
         rest = rest[idx + 1:]
         rnd += 1
+        # a family that has killed three children is a finding already: its remaining inputs are not run (each hang costs a
+        # whole time-out), and after a time-out the following children get a short one
+        fam = events[-1]["family"]
+        deaths[fam] = deaths.get(fam, 0) + 1
+        if deaths[fam] >= 3:
+            rest = [x for x in rest if x["family"] != fam]
+        if how == "timed-out":
+            timeout = min(timeout, 90)
     return events
 
 def rq_corruptions(rq, rnd):
@@ -149,6 +158,13 @@ def check(tier):
                 inputs.append({"family": "escape", "kind": "src", "text": f"from t | select {{v = f\"a{body}\"}}"})
                 inputs.append({"family": "escape", "kind": "src", "text": f"from t | select {{v = s\"a{body}\"}}"})
                 inputs.append({"family": "escape", "kind": "src", "text": f"from t | select {{v = '{body}'}}"})
+    # (b4) \u{..} and \x.. with 0 to 10 hex digits, closed and unclosed, valid and beyond the code-point range
+    for nd in (0, 1, 4, 6, 7, 8, 10):
+        for digits in ("1234567890"[:nd], "0000000041"[:nd]):
+            for close in ("}", ""):
+                for q, pre in (('"', ""), ("'", ""), ('"', "f")):
+                    inputs.append({"family": "escape", "kind": "src", "text": f"from t | select {{v = {pre}{q}\\u{{{digits}{close}{q}}}"})
+            inputs.append({"family": "escape", "kind": "src", "text": f"from t | select {{v = \"\\x{digits}\"}}"})
     # (b4) set operations and whole-row de-duplication around projections: relation x operation x projection x distinct x follower
     rels = ["from t", "from t | select {k, a}", "from t | take 5"]
     setops = ["", "append u", "append (from u | select {k, a})", "remove (from u | select {k, a})", "intersect (from u | select {k, a})", "join u (==k)"]
